@@ -23,6 +23,27 @@ fn main() {
     if tier == "--replay" {
         std::process::exit(replay::run(args.get(3).map(|s| s.as_str()).unwrap_or("")));
     }
+    if id == "GRIDPOINT" {
+        // sslverif GRIDPOINT <construct name> <type> <type> ...: one point of the operand grid (debugging aid)
+        let cs = opgrid::constructs(true);
+        let Some(c) = cs.iter().find(|c| c.name == tier) else {
+            eprintln!("no construct named {tier}");
+            std::process::exit(2);
+        };
+        let all = palette::thorough_types();
+        let tys: Vec<&ty::Ty> = args[3..].iter().map(|t| all.iter().find(|x| x.print() == *t).unwrap_or_else(|| panic!("no palette type {t}"))).collect();
+        let code = core::on_big_stack(move || {
+            let mut cx = opgrid::Ctx::new(false);
+            println!("{}", opgrid::program_typed(c, &tys, "any"));
+            cx.grid_point(c, &tys);
+            println!("programs {} accepted {} calls {} values {} errors {} panics {}", cx.st.programs, cx.st.accepted, cx.st.calls, cx.st.values, cx.st.exec_errors, cx.st.panics);
+            for (sig, (n, _)) in cx.st.c01.map.iter().chain(cx.st.c02.map.iter()) {
+                println!("{n:6}  {sig}");
+            }
+            0
+        });
+        std::process::exit(code);
+    }
     let code = match id {
         "C01" | "C02" => props::c01::run(id, tier),
         "C03" => props::c03::run(tier),
